@@ -46,6 +46,9 @@ def nrt_part(ctx, c, n, own, other_note):
     # scenario class: every (parent clock, child clock) pair, non-zero start, tempi != 1 and different
     for k in range(max(32, n // 4)):
         cases.append(K.gen_cross_prog(rng, k))
+    # scenario class: ties (FIFO among equal times on one clock and across clocks, under tempo changes / re-timing)
+    for k in range(max(16, n // 8)):
+        cases.append(K.gen_ties_prog(rng, k))
     outs, bad, explain, errors = K.run_nrt_correspondence(ctx, cases, 'nrt')
     c.evaluations += len(cases)
     for p, o in zip(cases, outs):
@@ -114,11 +117,25 @@ def rt_part(ctx, c, n):
     outs, codes = K.run_rt_correspondence(ctx, cases, 'rt', seed=ctx.seed)
     c.evaluations += len(cases)
     for p, o, code in zip(cases, outs, codes):
+        if o.get('lost_wakeup'):
+            c.failures.append(Failure('correspondence', 'RT: %d of %d routines never ended and NO clock holds a wake-up for them (checked with the main lock '
+                                      'held; not a matter of time or load): a yield was not re-scheduled. Program: %s'
+                                      % (o['nrout'] - o['nended'], o['nrout'], json.dumps(p)), theorem='kth_resume_time', found_input=True,
+                                      replay={'program': p, 'observed': o}))
+            continue
         if code == -1:
             c.count('rt:not-completed-in-time (machine load); not compared')
             continue
         c.count('rt:wakeups:%d' % min(9, sum(1 for s in o['schedule'] if s[0] == 'wake')))
         c.nontriv(('rt', json.dumps(p, sort_keys=True)))
+        for kind, lo, T, hi in o.get('top_bounds', []):
+            c.count('rt:main-thread %s: time read checked against the harness own readings' % kind)
+            if not (Fraction(lo) <= Fraction(T) <= Fraction(hi)):
+                c.failures.append(Failure('correspondence', 'RT: a %s from the main thread used the time %s, but the physical clock read %s just before and %s '
+                                          'just after the call (outside routines the current time is the physical time at the call). Program: %s'
+                                          % (kind, T, lo, hi, json.dumps(p)), theorem='stamp_outside_is_now_plus_latency', found_input=True,
+                                          replay={'program': p, 'bounds': o['top_bounds']}))
+                break
         has_tempo = any(a[0] == 'T' for b in p['bodies'] for a in b)
         if has_tempo:
             c.count('rt:program changes a tempo from a routine (late by construction)')
